@@ -194,6 +194,21 @@ CHECKS['C15'] = dict(
     technique="byte-exact Coq model of the sentence builder + per-answer-set oracle incl. read-back compilation",
     design="6.C15")
 
+CHECKS['C01'] = dict(
+    text="Asp/Ground.v: ground programs of the emitted class (facts, normal rules, choice rules with conditional elements and bounds, "
+         "constraints) with stable models defined by the reduct; C01_hierarchical_stable (both directions, any program, by induction on the "
+         "level): for hierarchical programs I is stable iff it meets constraints and bounds, is closed and supported. Cnl/Core.v: the core "
+         "fragment F0 as structured syntax, its compile model (byte-exact: every generated F0 specification is compiled by the "
+         "implementation and the model must print the same program), grounding over the universe of domain values, and the reading written "
+         "without reference to the compile model. Oracle: all answer sets clingo computes for the IMPLEMENTATION's program are evaluated in "
+         "Coq against the reading and against the ground semantics; when the candidate space is small the comparison is exhaustive over ALL "
+         "interpretations (reading = ground semantics = clingo). The theorem 'stable (ground (compile s)) I <-> reading s I' for all F0 "
+         "specifications is in progress (see DESIGN): partial.",
+    note="Trusted: Coq kernel; clingo as external semantics (it also validates Asp/Ground.v); Lark's parse of rendered sentences; the reading "
+         "(Cnl/Core.v: r_sentence) is the specification.",
+    technique="Coq proof of the stable-model characterisation + byte-exact compile model + exhaustive reading/ground/clingo comparison",
+    design="6.C01")
+
 NOT_YET = {}
 
 
